@@ -93,6 +93,17 @@ class SimNet:
     status = 200
     if data is None:
       status, data = 404, b'not found'
+    # an origin may or may not honour Range requests (both are legal HTTP): with support it answers 206 with the
+    # requested suffix, without it ignores the header and sends the whole body with 200
+    rng_hdr = request.headers.get('Range') if hasattr(request, 'headers') else None
+    if rng_hdr and status == 200:
+      self.count('range_requests')
+      if getattr(self, 'range_support', False) and rng_hdr.startswith('bytes=') and rng_hdr.endswith('-'):
+        try:
+          off = int(rng_hdr[6:-1])
+          data, status = data[off:], 206
+        except ValueError:
+          pass
     if fault and fault['kind'] == 'http_status':
       status, data = fault.get('status', 503), b'unavailable'
       self.fired.append(dict(fault))
